@@ -218,10 +218,10 @@ def resolveElements (fuel : Nat) (st : St) (ty : Node) : List Node × St :=
         | some (.mk .tsIface _ [_, _, .mk .list _ extends_, .mk .tsIfaceBody _ [.mk .list _ members]]) =>
           extends_.foldl (fun (acc : List Node × St) parent =>
             match parent with
-            | .mk .tsExprWithTypeArgs _ (.mk .ident ias _ :: _) =>
-              let (more, st) := resolveElements fuel acc.2 (.mk .tsTypeRef [] [.mk .ident ias [], nNone])
+            | .mk .tsExprWithTypeArgs _ [.mk .ident ias _, targs] =>
+              let (more, st) := resolveElements fuel acc.2 (.mk .tsTypeRef [] [.mk .ident ias [], targs])
               (acc.1 ++ more, st)
-            | _ => acc) (refineMembers members, st)
+            | _ => (acc.1, acc.2.err "Error: Unresolvable type.")) (refineMembers members, st)
         | some _ => ([], st)
         | none =>
           if b == "u" then
@@ -677,14 +677,14 @@ end
 /-- `TypeDeclCollector::visit_ts_interface_decl` -/
 def ifaceHook (n : Node) (st : St) : St :=
   match n with
-  | .mk .tsIface as [id, tp, ext, .mk .tsIfaceBody bas [.mk .list las members]] =>
+  | .mk .tsIface as [id, tp, .mk .list eas ext, .mk .tsIfaceBody bas [.mk .list las members]] =>
     let key := (identName id, identBind id)
     match lookupReg st.interfaces key with
-    | some (.mk .tsIface as0 [id0, tp0, ext0, .mk .tsIfaceBody bas0 [.mk .list las0 members0]]) =>
-      let merged := Node.mk .tsIface as0 [id0, tp0, ext0, .mk .tsIfaceBody bas0 [.mk .list las0 (members0 ++ members)]]
+    | some (.mk .tsIface as0 [id0, tp0, .mk .list eas0 ext0, .mk .tsIfaceBody bas0 [.mk .list las0 members0]]) =>
+      let merged := Node.mk .tsIface as0 [id0, tp0, .mk .list eas0 (ext0 ++ ext), .mk .tsIfaceBody bas0 [.mk .list las0 (members0 ++ members)]]
       { st with interfaces := st.interfaces.map fun p => if p.1 == key then (p.1, merged) else p }
     | some _ => st
-    | none => { st with interfaces := st.interfaces ++ [(key, .mk .tsIface as [id, tp, ext, .mk .tsIfaceBody bas [.mk .list las members]])] }
+    | none => { st with interfaces := st.interfaces ++ [(key, .mk .tsIface as [id, tp, .mk .list eas ext, .mk .tsIfaceBody bas [.mk .list las members]])] }
   | _ => st
 
 /-- `TypeDeclCollector::visit_ts_type_alias_decl` -/
